@@ -70,3 +70,21 @@ impl<R: BufRead> Decoder<R> {
             .trim_end()
     }
 }
+
+#[cfg(maxohn_rosu_map_verif)]
+impl<R> Decoder<R> {
+    /// Verification hook: the encoding detected by `read_bom`.
+    pub fn verif_encoding(&self) -> Encoding {
+        self.encoding
+    }
+
+    /// Verification hook: the raw bytes of the current line.
+    pub fn verif_read_buf(&self) -> &[u8] {
+        &self.read_buf
+    }
+
+    /// Verification hook: access to the wrapped reader.
+    pub fn verif_inner(&mut self) -> &mut R {
+        &mut self.inner
+    }
+}
